@@ -43,6 +43,8 @@ class Tr:
         self.ret_stack = []
         self.interp_names = set()
         self.class_name = 'MetamathConverter'
+        self.module_tree, self.module_path, self.src_root = None, None, None
+        self.proc_stack = []
         self.records = {'Proof': ['labels', 'applied_lemmas']}   # record constructors: class name -> field names
 
     def table(self, node, pyname):
@@ -63,6 +65,41 @@ class Tr:
         if txt != '@@PURE@@' or len(res) != 1:
             fail(e, 'expression that can raise inside a comprehension')
         return res[0]
+
+    def named_constant(self, name, module=None, depth=0):
+        """the literal a module-level name is bound to: NAME = 0 / NAME: Final = 'Z' (bound exactly once in its module, never
+        declared global, never augmented), following `from package.module import NAME`"""
+        tree, path = module or (self.module_tree, self.module_path)
+        if tree is None or depth > 3:
+            return None
+        binds = []
+        for n in tree.body:
+            if isinstance(n, ast.Assign) and any(isinstance(t, ast.Name) and t.id == name for t in n.targets):
+                binds.append(n.value)
+            elif isinstance(n, ast.AnnAssign) and isinstance(n.target, ast.Name) and n.target.id == name and n.value is not None:
+                binds.append(n.value)
+            elif isinstance(n, ast.AugAssign) and isinstance(n.target, ast.Name) and n.target.id == name:
+                return None
+        for n in ast.walk(tree):
+            if isinstance(n, (ast.Global, ast.Nonlocal)) and name in n.names:
+                return None
+            if isinstance(n, (ast.FunctionDef, ast.ClassDef)) and n.name == name:
+                return None
+        if len(binds) == 1:
+            v = binds[0]
+            if isinstance(v, ast.Constant) and (isinstance(v.value, str) or (isinstance(v.value, int) and not isinstance(v.value, bool))):
+                return v
+            return None
+        if binds:
+            return None
+        for n in tree.body:
+            if isinstance(n, ast.ImportFrom) and n.module and n.level == 0:
+                for al in n.names:
+                    if (al.asname or al.name) == name and n.module.startswith('proof_generation'):
+                        f = os.path.join(self.src_root, *n.module.split('.')) + '.py'
+                        if os.path.exists(f):
+                            return self.named_constant(al.name, (ast.parse(open(f).read()), f), depth + 1)
+        return None
 
     def tmp(self):
         self.fresh += 1
@@ -135,6 +172,10 @@ class Tr:
                 return k(*self.globals[e.id])
             if e.id in self.consts:
                 return k(*self.table(e, e.id))
+            lit = self.named_constant(e.id)
+            if lit is not None:
+                # a module-level constant bound once to a literal (possibly imported from another module of the package) = its value
+                return self.cx(ast.copy_location(lit, e), env, k)
             fail(e, 'unknown name')
         if isinstance(e, ast.Attribute):
             key = self.key_of(e, env)
@@ -260,6 +301,37 @@ class Tr:
                 if nm == 'pow' and len(e.args) == 2:
                     return self.cx(e.args[0], env, lambda a, ta: self.cx(e.args[1], env, lambda b, tb:
                                    k(f'({a} ^ {b})', 'int') if (ta, tb) == ('int', 'int') else fail(e, 'pow of non-integers')))
+                if nm == 'sum' and len(e.args) == 1 and isinstance(e.args[0], (ast.GeneratorExp, ast.ListComp)) and not e.keywords:
+                    # sum(E for [i,] x in [enumerate(]xs[)])  =  acc = 0; for ...: acc += E
+                    g = e.args[0]
+                    if len(g.generators) != 1 or g.generators[0].ifs or g.generators[0].is_async:
+                        fail(e, 'sum over a comprehension with several loops / a condition')
+                    gen = g.generators[0]
+                    it, idx = gen.iter, None
+                    if isinstance(it, ast.Call) and isinstance(it.func, ast.Name) and it.func.id == 'enumerate' and len(it.args) == 1 and not it.keywords:
+                        if not (isinstance(gen.target, ast.Tuple) and len(gen.target.elts) == 2 and all(isinstance(x, ast.Name) for x in gen.target.elts)):
+                            fail(e, 'enumerate without (index, element) target')
+                        idx, elem, it = gen.target.elts[0].id, gen.target.elts[1].id, it.args[0]
+                    elif isinstance(gen.target, ast.Name):
+                        elem = gen.target.id
+                    else:
+                        fail(e, 'unsupported comprehension target')
+
+                    def ksum(xs, tx):
+                        et = {'str': 'char', 'list_int': 'int'}.get(tx)
+                        if et is None:
+                            fail(e, f'sum over a {tx}')
+                        benv = {**env, elem: (cname(elem), et)}
+                        if idx is not None:
+                            benv[idx] = (cname(idx), 'int')
+                        body = self.cx(g.elt, benv, lambda a, ta: f'Some (CNext, (v_acc + {a}))' if ta == 'int' else fail(e, f'sum of {ta}'))
+                        x = self.tmp()
+                        if idx is not None:
+                            loop = f'py_for_enum (fun {cname(idx)} {cname(elem)} v_acc =>\n{body}) 0 {xs} 0'
+                        else:
+                            loop = f'py_for (fun {cname(elem)} v_acc =>\n{body}) {xs} 0'
+                        return f'match {loop} with None => None | Some {x} => {k(x, "int")} end'
+                    return self.cx(it, env, ksum)
                 if nm == 'len' and len(e.args) == 1:
                     return self.cx(e.args[0], env, lambda a, ta: k(f'(py_len {a})', 'int'))
                 if nm in ('list', 'str', 'repr') and len(e.args) == 1 and nm == 'list':
@@ -415,6 +487,13 @@ class Tr:
                         add('trace')
                 if isinstance(n, ast.For):
                     fail(n, 'nested loop')
+                if isinstance(n, ast.Call) and self.callee(n.func) in self.inline_defs and self.callee(n.func) not in getattr(self, '_seen_inl', ()):
+                    self._seen_inl = getattr(self, '_seen_inl', ()) + (self.callee(n.func),)
+                    try:
+                        for v in self.assigned(list(self.inline_defs[self.callee(n.func)].body), env):
+                            add(v)
+                    finally:
+                        self._seen_inl = self._seen_inl[:-1]
         return out
 
     def pack(self, svars, idx, env):
@@ -512,6 +591,18 @@ class Tr:
                     return bind(t.id, '[]', lt, env)
                 return self.cx(value, env, lambda a, ta: bind(t.id, a, {'char1': 'str1', 'list_any': 'list_term'}.get(ta, ta), env)
                                if ta != 'char1' else bind(t.id, f'[{a}]', 'str', env))
+            if isinstance(t, ast.Tuple) and len(t.elts) == 2 and isinstance(t.elts[1], ast.Name) and isinstance(t.elts[0], ast.Starred) \
+                    and isinstance(t.elts[0].value, ast.Name):
+                # *init, last = xs : the last element and what precedes it
+                r, h = t.elts[0].value.id, t.elts[1].id
+
+                def kk2(a, ta):
+                    if ta != 'str':
+                        fail(s, 'init/last unpacking of a non-string')
+                    rv = cname(r) + '_rev'
+                    env2 = {**env, h: (cname(h), 'char'), r: (f'(rev {rv})', 'str')}
+                    return f'match (rev {a}) with [] => None | {cname(h)} :: {rv} =>\n{cont(env2)} end'
+                return self.cx(value, env, kk2)
             if isinstance(t, ast.Tuple) and len(t.elts) == 2 and isinstance(t.elts[0], ast.Name) and isinstance(t.elts[1], ast.Starred) \
                     and isinstance(t.elts[1].value, ast.Name):
                 h, r = t.elts[0].id, t.elts[1].value.id
@@ -549,6 +640,38 @@ class Tr:
                     return bind(key, f'({cn} ++ {a})', 'str', env)
                 fail(s, f'+= of {ta} to {t0}')
             return self.cx(s.value, env, kk)
+        if isinstance(s, ast.Expr) and isinstance(s.value, ast.Call) and self.callee(s.value.func) in self.inline_defs:
+            fd = self.inline_defs[self.callee(s.value.func)]
+            c = s.value
+            params = [a for a in fd.args.args if a.arg not in ('self', 'cls')]
+            if len(params) != len(c.args) or c.keywords:
+                fail(s, 'call of a nested helper with other than its positional parameters')
+            pnames = {a.arg for a in params}
+
+            depth = len(self.proc_stack)
+
+            def after(e2):
+                # variables of the caller that the helper rebinds (closure variables it appends to / stores into) keep their new value;
+                # what follows is the caller's code: no longer inside the helper
+                saved = self.proc_stack
+                self.proc_stack = saved[:depth]
+                try:
+                    return cont({**env, **{n: e2[n] for n in env if n in e2 and n not in pnames}})
+                finally:
+                    self.proc_stack = saved
+
+            def pargs(i, env_fn):
+                if i == len(params):
+                    self.proc_stack.append(after)
+                    try:
+                        return self.block(list(fd.body), env_fn, after, None)
+                    finally:
+                        self.proc_stack.pop()
+                ann = ast.unparse(params[i].annotation) if params[i].annotation is not None else None
+                if ann not in self.PTYPES or self.PTYPES[ann][1] == 'dict_is':
+                    fail(fd, f'helper parameter {params[i].arg} with unsupported annotation {ann}')
+                return self.cx(c.args[i], env, lambda a, ta: pargs(i + 1, {**env_fn, params[i].arg: (a, self.PTYPES[ann][1])}))
+            return pargs(0, dict(env))
         if isinstance(s, ast.Expr) and isinstance(s.value, ast.Call) and isinstance(s.value.func, ast.Attribute):
             c = s.value
             recv = c.func.value
@@ -612,6 +735,8 @@ class Tr:
                 fail(s, 'break outside a loop')
             return f'Some (CBreak, {self.pack(loop[0], loop[1], env)})'
         if isinstance(s, ast.Return):
+            if s.value is None and loop is None and self.proc_stack:
+                return self.proc_stack[-1](env)
             if loop is not None or s.value is None:
                 fail(s, 'return inside a loop / without value')
             if self.ret_stack:
@@ -772,6 +897,8 @@ def generate(repo):
     conv = ast.parse(open(os.path.join(pkg, 'converter', 'converter.py')).read())
     trans = ast.parse(open(os.path.join(pkg, 'translate.py')).read())
     T = Tr()
+    src_root = os.path.join(repo, 'generation', 'src')
+    T.module_tree, T.module_path, T.src_root = conv, os.path.join(pkg, 'converter', 'converter.py'), src_root
     ip = find_method(conv, 'MetamathConverter', '_import_proof')
     if [a.arg for a in ip.args.args] != ['self', 'statement'] or ip.args.kwonlyargs or ip.args.vararg or ip.args.kwarg:
         fail(ip, '_import_proof has other parameters than (self, statement)')
@@ -971,6 +1098,19 @@ def generate(repo):
     T2 = Tr()
     T2.fresh = 1000
     T2.interp_names = {a.arg for a in ep.args.args if a.arg in ('interp', 'interpreter')}
+    T2.module_tree, T2.module_path, T2.src_root = trans, os.path.join(pkg, 'translate.py'), src_root
+    # nested handlers of exec_proof called from the head of the loop are inlined; a handler that touches the marks may be called
+    # from the head only
+    enested = {n.name: n for n in ep.body if isinstance(n, ast.FunctionDef)}
+    head_calls = {T2.callee(c.func) for c in ast.walk(head) if isinstance(c, ast.Call) and T2.callee(c.func) in enested}
+    for nm, fd in enested.items():
+        touches = any(isinstance(n, ast.Name) and n.id in ('mm_memory', 'memory_offset') for n in ast.walk(fd))
+        if nm in head_calls:
+            if fd.args.kwonlyargs or fd.args.vararg or fd.args.kwarg or fd.args.defaults or fd.decorator_list:
+                fail(fd, 'nested handler with defaults / decorators / variadic parameters')
+            T2.inline_defs[nm] = fd
+        elif touches:
+            fail(fd, 'a handler outside the head of the replay loop uses mm_memory/memory_offset')
     txt = T2.function(fake, 'gen_replay', extra_env=env0, body=pre + [newloop, ret])
     txt = txt.replace('Definition gen_replay  :=\n', 'Definition gen_replay : option (list (gev term)) :=\nlet v_trace := [] in\nlet v_stack__top := @None term in\n')
     out += ['(** translate.py exec_proof: what a number denotes during replay.  [ctx_labels] = exported_proof.labels, [ctx_steps] = the',
